@@ -904,3 +904,46 @@ func H_C13_pathOutput(variant int) {
 		verifAssert(vpReadThrough("/ps/outs/inner.txt") == 801, "C13: a file output which lies inside a directory output is available under outs/")
 	}
 }
+
+var vpOddKeys = []string{"ok", "b/c", "..", "x y"}
+
+// H_C13_mapKeyNames(k): the typed-map output `named` has, next to the key "a",
+// a second key which is or is not a legal file name (keys of a typed map of
+// files become file names under outs/named/).
+//
+//	C13: the rewritten _outs keeps the shape: both keys are still there and
+//	     each still designates its file - a key which cannot become a file name
+//	     is not silently dropped from the record.
+func H_C13_mapKeyNames(k int) {
+	ps := vpGraph()
+	vpFS = map[string]*vpNode{}
+	vpWritten = nil
+	for _, d := range []string{"/ps", "/ps/P", "/ps/P/S", "/ps/P/S/fork0", vpFilesDir} {
+		vpFS[d] = &vpNode{kind: 2}
+	}
+	vpFS[vpFilesDir+"/fa"] = &vpNode{kind: 1, inode: 901}
+	vpFS[vpFilesDir+"/fb"] = &vpNode{kind: 1, inode: 902}
+	key := vpOddKeys[k]
+	vpOutsRaw = []byte(`{"report":null,"n":7,"logs":[null,null],"st":{"f":null,"k":3},"named":{"a":"` + vpFilesDir + `/fa","` + key + `":"` + vpFilesDir + `/fb"}}`)
+	ps.node.forks[0].postProcess(context.Background())
+	verifCover("typed map with an odd key post-processed")
+	if vpWritten == nil {
+		verifAssert(false, "C13: the rewritten _outs is stored")
+		return
+	}
+	doc, merr := vpWritten.MarshalJSON()
+	var top, named LazyArgumentMap
+	if merr != nil || vjUnmarshal(doc, &top) != nil || vjUnmarshal(top["named"], &named) != nil {
+		verifAssert(false, "C13: the rewritten _outs has the shape of the outputs")
+		return
+	}
+	for name, inode := range map[string]int{"a": 901, key: 902} {
+		v, ok := named[name]
+		verifAssert(ok, "C13: every key of a typed-map output is still in the rewritten _outs (the record keeps its shape)")
+		if !ok {
+			continue
+		}
+		q, isStr := vpUnquote(vjTrim(v))
+		verifAssert(isStr && vpReadThrough(q) == inode, "C13: every entry of a typed-map output still designates its file")
+	}
+}
